@@ -9,6 +9,16 @@ impl DetectProp for C06 {
     fn id(&self) -> &'static str {
         "C06"
     }
+    fn directed(&self, thorough: bool) -> Vec<Case> {
+        // > 1 MB declaring a legacy page that cannot decode one byte somewhere beyond the 500,000-byte prefix
+        let mut rng = Rng::new(606);
+        let mut v = vec![];
+        for k in 0..(if thorough { 8 } else { 3 }) {
+            let (b, enc) = large_declared_bad_byte(&mut rng, k % 4);
+            v.push(Case { bytes: b, sett: Sett::default(), tag: format!("nomodel:large-declared-bad-byte:{}", enc) });
+        }
+        v
+    }
     fn gen(&self, rng: &mut Rng, corpus: &[(String, Vec<u8>)], idx: usize) -> Case {
         let mut c = structured_case(rng, corpus);
         if idx % 10 == 9 {
@@ -123,6 +133,19 @@ impl DetectProp for C06 {
         }
         if declared.is_some() {
             cx.rep.count("oracle:declaration-seen");
+        }
+        // a declaration or mark that does not fit the bytes is never taken for granted: whichever self-identified
+        // encoding is reported (as a regular match or as the fallback) must strictly decode the input – decided by
+        // the codec library itself, not by probing the implementation
+        for m in ms.iter() {
+            let enc = m.encoding().to_string();
+            if Some(&enc) == declared.as_ref() || Some(&enc) == sig.as_ref() {
+                cx.rep.count("oracle:self-identified-encoding-reported");
+                let stripped = super::c01::strip_own_mark(&enc, &case.bytes);
+                if super::c01::direct_decode(&enc, stripped).is_none() {
+                    cx.rep.fail("oracle", "C06:misfitting-self-identification-taken-for-granted", &format!("{} is declared / marked in the content and reported, but does not strictly decode the input", enc), &case.bytes, Some(s), &case.tag);
+                }
+            }
         }
         if sig.is_some() {
             cx.rep.count("oracle:mark-seen");
